@@ -9,6 +9,7 @@ inductive Att where
   | temp (code : Nat)      -- an acceptable response with a temporary code (C0, C3): counted, then retried
   | junk                   -- undecodable / unacceptable / reply to another command: not counted, retried
   | lost                   -- transport failure
+  | cancelled              -- the caller's context ended during the back-off sleep before this attempt: it never runs
   deriving Repr, DecidableEq
 
 inductive Ev where
@@ -44,12 +45,13 @@ def cnt {κ : Type} [DecidableEq κ] (k : κ) : List (κ × Nat) → Nat
 def loop (inSession : Bool) : M → Bool → List Att → M × Bool
   | m, first, [] => ({ m with retries := if first then m.retries else m.retries + 1 }, false)
   | m, first, a :: rest =>
-    let m := { m with retries := if first then m.retries else m.retries + 1 }
+    let m' := { m with retries := if first then m.retries else m.retries + 1 }
     match a with
-    | .final c => ({ m with responses := bump c m.responses }, true)
-    | .temp c => loop inSession { m with responses := bump c m.responses } false rest
-    | .junk => loop inSession m false rest
-    | .lost => if inSession then (m, false) else loop inSession m false rest
+    | .final c => ({ m' with responses := bump c m'.responses }, true)
+    | .temp c => loop inSession { m' with responses := bump c m'.responses } false rest
+    | .junk => loop inSession m' false rest
+    | .lost => if inSession then (m', false) else loop inSession m' false rest
+    | .cancelled => (m, false)
 
 /-- `SendCommand`: attempts +1; failures +1 when the loop fails or the response body does not decode -/
 def command (m : M) (name : String) (inSession bodyDecodes : Bool) (atts : List Att) : M :=
@@ -76,6 +78,7 @@ def closureRuns (inSession : Bool) : List Att → Nat
   | .temp _ :: rest => 1 + closureRuns inSession rest
   | .junk :: rest => 1 + closureRuns inSession rest
   | .lost :: rest => if inSession then 1 else 1 + closureRuns inSession rest
+  | .cancelled :: _ => 0
 
 /-- did the call obtain a final answer? -/
 def succeeds (inSession : Bool) : List Att → Bool
@@ -84,6 +87,7 @@ def succeeds (inSession : Bool) : List Att → Bool
   | .temp _ :: rest => succeeds inSession rest
   | .junk :: rest => succeeds inSession rest
   | .lost :: rest => if inSession then false else succeeds inSession rest
+  | .cancelled :: _ => false
 
 /-- valid responses with completion code c received during one call -/
 def responsesOf (inSession : Bool) (c : Nat) : List Att → Nat
@@ -92,5 +96,6 @@ def responsesOf (inSession : Bool) (c : Nat) : List Att → Nat
   | .temp c' :: rest => (if c' = c then 1 else 0) + responsesOf inSession c rest
   | .junk :: rest => responsesOf inSession c rest
   | .lost :: rest => if inSession then 0 else responsesOf inSession c rest
+  | .cancelled :: _ => 0
 
 end Bmc.Proto.Metrics
